@@ -105,12 +105,13 @@ Definition send_key (cfg : config) (st : cstate) (level : Z) (key : bytes) (now 
 
 (* the configured security algorithm: flavours of the three documented signatures.
    1: algo(seed)   2: algo(seed, params)   3: algo(level, seed, params)   4: callable object without __code__
-   (gets all three).  The executable instance computes  reversed(seed) ++ extras. *)
+   (gets all three)   5: algo(seed, params) whose body has a local variable called level   6: algo(seed) whose body has locals
+   called level and params (only declared parameters count).  The executable instance computes  reversed(seed) ++ extras. *)
 Definition algo_run (cfg : config) (seed : bytes) (level : Z) : bytes * ev :=
   let prm := algo_prm cfg in
   let pb := if prm <? 0 then 0 else prm mod 256 in
-  if algo cfg =? 1 then (rev seed, EvALGO seed (-1) (-1))
-  else if algo cfg =? 2 then (rev seed ++ [pb], EvALGO seed (-1) prm)
+  if (algo cfg =? 1) || (algo cfg =? 6) then (rev seed, EvALGO seed (-1) (-1))
+  else if (algo cfg =? 2) || (algo cfg =? 5) then (rev seed ++ [pb], EvALGO seed (-1) prm)
   else (rev seed ++ [level mod 256; pb], EvALGO seed level prm).
 
 Definition seed_of (sd : sdata) : bytes := match sd with _ :: _ :: _ :: seed => seed | _ => [] end.
